@@ -765,7 +765,12 @@ func (e *SpecEnv) evalCall(x SCall) SV {
 		return SV{Term: fmt.Sprintf("(select %s %s)", e.Cur.Heap(zdata), arg(0).Term), Typ: types.NewSlice(types.Typ[types.Byte])}
 	case "sbContent":
 		// sbContent(b): the text accumulated so far in the local strings.Builder b (ghost)
-		return SV{Term: fmt.Sprintf("(select %s %s)", e.Cur.Heap(sbHeap(e.G)), e.refOf(arg(0))), Typ: types.Typ[types.String]}
+		a0 := arg(0)
+		if a0.Loc != nil && a0.Loc.Path != "" {
+			// a builder that is a field of another object (w.output): same ghost key as the executor uses
+			return SV{Term: fmt.Sprintf("(select %s %s)", e.Cur.Heap(sbHeap(e.G)), interiorKey(a0.Loc.Base, a0.Loc.Path)), Typ: types.Typ[types.String]}
+		}
+		return SV{Term: fmt.Sprintf("(select %s %s)", e.Cur.Heap(sbHeap(e.G)), e.refOf(a0)), Typ: types.Typ[types.String]}
 	case "evCount":
 		// evCount("name"): number of events in the named ghost sequence
 		id, ok := x.Args[0].(SStrLit)
